@@ -342,6 +342,7 @@ class Env:
         self.rec.repl_kinds = cfg.get("repl_kinds") or ["obj"]
         self.rec.repl_partial = bool(cfg.get("repl_partial"))
         self.sched = Scheduler(ctx, world, len(world.refs) + 2)
+        self.def_spans = {(d.file, d.name): (d.start, d.stop) for d in world.defs}
         self.classes = [make_class(n, v, self.rec) for n, v in cfg["classes"]]
         kw = dict(textx_tools_support=cfg["tools"], memoization=cfg["memo"])
         if cfg["global_repo"]:
@@ -416,6 +417,12 @@ class Env:
             k = okey(obj)
             pi = rec.pos_by_id.get(id(obj))
             rec.last_obj = (pi[0], pi[1], pi[2] - pi[1]) if pi else None
+            if pi and rule in ("Def", "Item") and type(obj).__name__ == "Def":
+                # for definitions the expected location comes from the generator's own offsets (the text of the Def
+                # rule, without the angle brackets of the `'<' Def '>'` alternative), not from the object's attributes
+                ent = rec.env.def_spans.get((pi[0] or rec.env.world.main, getattr(obj, "name", None)))
+                if ent is not None:
+                    rec.last_obj = (pi[0], ent[0], ent[1] - ent[0])
             i = rec.ev("objproc", rule, k)
             rec.objprocs.append((i, rule, k, rec.ref(obj), obj if rec.strong else None))
             rec.cross("objproc")
